@@ -2,7 +2,7 @@
    = false: handlers have no scripted API calls (what a handler legitimately invoked for the
    client does through the API is outside the claim); benign_event_name: the frame does not carry
    an event literally named "disconnect" (C12_reserved_event_refuted shows why). *)
-From VT Require Import Server.Isolation Server.Sessions.
+From VT Require Import Server.Isolation Server.Sessions Server.EmitNestedProofs.
 
 Theorem C12_frame_local : forall c s e payload tbl,
   has_actions c = false -> Inv s -> benign_event_name c s e payload (table_loads tbl) ->
@@ -104,3 +104,55 @@ Theorem C12_example :
   c12_step x_cfg x_state x_frame_disc (snd (step x_cfg x_state x_frame_disc)) = true.
 Proof. exact (conj x_state_Inv (conj (proj2 x_frame_event_local) (proj2 (proj2 x_frame_disc_local)))). Qed.
 Print Assumptions C12_example.
+
+(* ---- re-entrancy at the send (Server/EmitNested.v): a broadcast without callback during which a
+   packet of the offender, or the loss of its transport, is processed from inside a send ---- *)
+
+(* the plain ApiEmit step of Server.v writes nothing and is exactly "the sends decided before the
+   first one, to the transports alive" *)
+Theorem C12_emit_plain : forall c s ev data to room skip ns,
+  step c s (ApiEmit ev data to room skip ns None) =
+  (s, match emit_sends c s ev data (ns_or_default ns) (first_truthy to room) skip with
+      | Ok l => sends_live (live s) l
+      | Err x => [Raised x]
+      end).
+Proof. exact emit_plain. Qed.
+Print Assumptions C12_emit_plain.
+
+(* the new operation with the nested operation disarmed is the old one *)
+Theorem C12_nested_never : forall c s ev data to room skip ns inner,
+  nstep c s (NEmit ev data to room skip ns 0 inner) = step c s (ApiEmit ev data to room skip ns None).
+Proof. exact nested_never. Qed.
+Print Assumptions C12_nested_never.
+
+(* on histories of plain operations the evaluator used by the harness is the old one *)
+Theorem C12_plain_eval : forall c ops obs fin,
+  c12x_eval (mkN c (map NPlain ops) (plain_obs obs) fin) = c12_eval (mkH c ops obs fin).
+Proof. exact plain_eval. Qed.
+Print Assumptions C12_plain_eval.
+
+(* no packet of any client changes which transports are alive *)
+Theorem C12_message_live : forall c s e payload tbl, live (fst (step c s (EioMessage e payload tbl))) = live s.
+Proof. exact step_message_live. Qed.
+Print Assumptions C12_message_live.
+
+(* the model's re-entrant broadcast passes the checker applied to the implementation: whatever
+   packet of the offender (or the loss of its transport) is processed after the k-th send, every
+   other addressed member is served exactly once, nobody else receives anything, the offender at
+   most once, nothing is raised, and the nested packet obeys c12_step *)
+Theorem C12_nested_broadcast : forall c s ev data to room skip ns k e inner,
+  has_actions c = false -> Inv s -> offender_op c s e inner ->
+  c12_nested_step c s ev data to room skip ns inner
+                  (snd (nstep3 c s (NEmit ev data to room skip ns k inner))) = true.
+Proof. exact nested_broadcast_ok. Qed.
+Print Assumptions C12_nested_broadcast.
+
+Theorem C12_nested_example :
+  snd (nstep3 x_cfg x_state x_nested) =
+    ([Out x_e1 x_news], [Call 3 [PStr (sid_name 0); PStr (s2l "client disconnect")]], [Out x_e2 x_news]) /\
+  c12_nested_step x_cfg x_state (PStr (s2l "news")) (PInt 1) PNone PNone PNone None x_frame_disc
+                  (snd (nstep3 x_cfg x_state x_nested)) = true /\
+  c12_nested_step x_cfg x_state (PStr (s2l "news")) (PInt 1) PNone PNone PNone None x_frame_disc
+                  ([Out x_e1 x_news], [Call 3 [PStr (sid_name 0); PStr (s2l "client disconnect")]], [Raised RuntimeError]) = false.
+Proof. exact (conj (proj1 x_nested_segments) (conj x_nested_ok (proj1 x_nested_rejected))). Qed.
+Print Assumptions C12_nested_example.
